@@ -359,8 +359,8 @@ class Tr:
             return
         if is_call(x, "starts_with") and tv and len(x[2]) == 2:
             p = look(x[2][1])
-            if p[0] == "const" and isinstance(p[1], str):
-                self.st.add_le(Lin.const(len(p[1].encode())) - self.length(x[2][0]))
+            if p[0] == "const" and isinstance(p[1], (str, bytes)):
+                self.st.add_le(Lin.const(len(p[1].encode() if isinstance(p[1], str) else p[1])) - self.length(x[2][0]))
             return
         if x[0] == "discr":
             # the outcome of checked_add / checked_sub says how the operands compare
@@ -660,6 +660,8 @@ class PanicAnalysis:
                 if ev[0] == "cond" and is_call(look(ev[3]), "starts_with") and truth(ev[4]):
                     s_, p_ = look(ev[3])[2]
                     P = const_of(p_)
+                    if isinstance(P, bytes):
+                        P = P.decode("latin-1")
                     if norm(look(s_)) == norm(b) and isinstance(P, str) and all(ord(ch) < 128 for ch in P) and (k == P or k == len(P)):
                         return True
             return False
@@ -678,7 +680,10 @@ class PanicAnalysis:
                 if not (is_call(src, "index") and len(src[2]) == 2):
                     return False
                 rr = look(src[2][1])
-                if not (rr[0] == "agg" and rr[1].startswith("std::ops::RangeFrom") and const_of(rr[3][0]) == skip):
+                if not (rr[0] == "agg" and rr[1].startswith("std::ops::RangeFrom")):
+                    return False
+                sk = tr.lin(rr[3][0])
+                if not (sk.is_const() and sk.k == skip):
                     return False
                 src = look(src[2][0])
             if norm(src) != norm(b):
@@ -716,7 +721,8 @@ class PanicAnalysis:
         sm = as_sum(n)
         if sm is not None:
             for a_, p_ in (sm, (sm[1], sm[0])):
-                k = const_of(a_)
+                kl = tr.lin(a_)
+                k = kl.k if kl.is_const() else None
                 ps = payload_of(p_)
                 if isinstance(k, int) and ps is not None and is_call(ps, "position") and ascii_position(ps, k) and prefix_len_on_path(k):
                     return True, "L-str-prefix + L-str-byte"
